@@ -43,6 +43,8 @@ pub struct Gen<'a> {
     pub spine_odds: usize,
     /// a base that is a link to a directory, in percent of the draws that allow one
     pub link_base_pct: usize,
+    /// a foreign tree (another file system) behind a link, in percent of the trees that have links
+    pub foreign_pct: usize,
 }
 
 /// Names (first) with a partner that Unicode simple case folding identifies with them.
@@ -109,6 +111,7 @@ impl<'a> Gen<'a> {
             names,
             spine_odds: 50,
             link_base_pct: 7,
+            foreign_pct: 0,
         }
     }
 
@@ -248,6 +251,41 @@ impl<'a> Gen<'a> {
                     if bad {
                         tree.truncate(before);
                     }
+                }
+            }
+            // A foreign tree: a few files and directories on another file system, reachable through
+            // one or two links only (absolute targets `$F...`). Appended last, so that nothing above
+            // ever picks a foreign node as a place to put something.
+            if self.rng.chance(self.foreign_pct, 100) {
+                let (n0, n1) = (self.names[0], self.names[self.names.len() - 1]);
+                let sub = format!("{}/{}", F, n1);
+                let mut foreign = vec![
+                    Node { path: F.to_string(), kind: Kind::Dir, mode: None },
+                    Node { path: format!("{}/{}", F, n0), kind: Kind::File, mode: None },
+                ];
+                if n1 != n0 {
+                    foreign.push(Node { path: sub.clone(), kind: Kind::Dir, mode: None });
+                    foreign.push(Node { path: format!("{}/{}", sub, n0), kind: Kind::File, mode: None });
+                    if self.rng.chance(1, 2) {
+                        foreign.push(Node { path: format!("{}/x.txt", sub), kind: Kind::File, mode: None });
+                        foreign.push(Node { path: format!("{}/d", sub), kind: Kind::Dir, mode: None });
+                        foreign.push(Node { path: format!("{}/d/{}", sub, n1), kind: Kind::File, mode: None });
+                    }
+                }
+                let mut linked = false;
+                for _ in 0..self.rng.range(1, 2) {
+                    let par = self.rng.pick(&dirs).clone();
+                    let nm = *self.rng.pick(&self.names.clone());
+                    let path = join(&par, nm);
+                    if tree.iter().any(|t| t.path == path) || path.len() > 3000 {
+                        continue;
+                    }
+                    let target = if n1 != n0 && self.rng.chance(1, 2) { sub.clone() } else { F.to_string() };
+                    tree.push(Node { path, kind: Kind::Link { target }, mode: None });
+                    linked = true;
+                }
+                if linked {
+                    tree.extend(foreign);
                 }
             }
         }
@@ -561,7 +599,7 @@ impl<'a> Gen<'a> {
         let below: Vec<&String> = model
             .nodes
             .keys()
-            .filter(|p| is_below(p, base))
+            .filter(|p| is_below(p, base) && !is_foreign(p))
             .collect();
         let target: Vec<String> = if !below.is_empty() && self.rng.chance(85, 100) {
             rel_to(self.rng.pick(&below).as_str(), base)
@@ -724,7 +762,7 @@ impl<'a> Gen<'a> {
     pub fn not_expr(&mut self, model: &Model, base: &str) -> String {
         let canon = model.resolve(base, true).unwrap_or_else(|_| base.to_string());
         let base = canon.as_str();
-        let below: Vec<&String> = model.nodes.keys().filter(|p| is_below(p, base)).collect();
+        let below: Vec<&String> = model.nodes.keys().filter(|p| is_below(p, base) && !is_foreign(p)).collect();
         let pick_name = |g: &mut Self| -> String {
             if !below.is_empty() && g.rng.chance(8, 10) {
                 name(g.rng.pick(&below).as_str()).to_string()
@@ -860,6 +898,7 @@ impl<'a> Gen<'a> {
             .filter(|(p, i)| {
                 i.kind == Kind::Dir
                     && i.mode.is_none()
+                    && !is_foreign(p)
                     && {
                         // no restricted ancestor
                         let mut q: &str = p;
